@@ -317,4 +317,25 @@ def metric_case(p, res):
             res.ev(2, transitions=3)
             if abs(a - snr) > 0.1 or abs(b - snr) > 0.1:
                 v("metric-agrees", f"AWGN configured at {snr} dB measured as {a:.3f} dB (calculate_snr) / {b:.3f} dB (SignalToNoiseRatio)")
+    # per-row forms: add_noise_for_snr(signal, snr, dim=1) calibrates every row on its own; calculate_snr(dim=...) measures per row
+    from kaira.utils.snr import add_noise_for_snr, estimate_signal_power
+    for cplx in (False, True):
+        rows = [signal(4096, p_, cplx, 0) for p_ in (1e-2, 1.0, 25.0)]
+        X = torch.stack(rows)
+        for snr in (-5.0, 10.0, 30.0):
+            with Seam(Quantile()):
+                Y, Nz = add_noise_for_snr(X, snr, dim=1)
+            res.ev(3, nontrivial=3, transitions=2)
+            per = calculate_snr(X, Y, dim=1)
+            ref_rows = [10 * math.log10(float((X[r].abs().double() ** 2).mean()) / float(((Y[r] - X[r]).abs().double() ** 2).mean())) for r in range(3)]
+            if tuple(per.shape) != (3,) or max(abs(float(a_) - b_) for a_, b_ in zip(per, ref_rows)) > 1e-2:
+                v("metric-agrees", f"calculate_snr(dim=1) = {per.tolist()} vs per-row reference {ref_rows}")
+            if max(abs(r_ - snr) for r_ in ref_rows) > 0.05:
+                v("snr", f"add_noise_for_snr(dim=1, {snr} dB): per-row SNRs {ref_rows}")
+            if not torch.equal(Y, X + Nz):
+                v("verbatim", "add_noise_for_snr: returned noisy signal is not signal + returned noise")
+        pw = estimate_signal_power(X, dim=1)
+        refp = [float((X[r].abs().double() ** 2).mean()) for r in range(3)]
+        if max(abs(float(a_) - b_) / b_ for a_, b_ in zip(pw, refp)) > 1e-5:
+            v("conversion", f"estimate_signal_power(dim=1) = {pw.tolist()} vs {refp}")
     res.sample({"metric_points": "signal powers x SNRs x real/complex"})
